@@ -101,8 +101,49 @@ def run_case(case, col=None):
     return fails
 
 
+OUTER = {'k': 'SEQUENCE', 'tags': [], 'comps': [{'name': 'id', 't': {'k': 'INTEGER', 'tags': []}, 'p': 'req'},
+                                                {'name': 'blob', 't': {'k': 'ANY', 'tags': []}, 'p': 'req'},
+                                                {'name': 'z', 't': {'k': 'INTEGER', 'tags': [['I', 'C', 9]]}, 'p': 'req'}]}
+
+
+def run_opentype(case, col=None):
+    """The offending element sits inside the payload of an open type field that the decoder resolves."""
+    from pv.checks import c18
+    T, v = case['T'], case['v']
+    fails = []
+    sch, _inner = c18.make_schema({'gov_kind': 'INTEGER', 'map': [[1, T]], 'container': 'SEQUENCE', 'field': 'any'})
+    inner_e, rws = rewrites(T, v)
+    e = x690.der(OUTER, {'id': 1, 'blob': inner_e, 'z': 7})
+    d0 = lib.decode('DER', e, sch, decodeOpenTypes=True)
+    if not (d0.ok and d0.rest == b'' and not isinstance(d0.value['blob'], build.univ.Any)):
+        if col is not None:
+            col.exclude('control arm: der.decode of the canonical open type container fails (C18)')
+        return fails
+    for idx, (kind, where, node, inner2) in enumerate(rws):
+        if case.get('only') is not None and case['only'] != idx:
+            continue
+        e2 = x690.der(OUTER, {'id': 1, 'blob': inner2, 'z': 7})
+        b = lib.decode('BER', e2, sch, decodeOpenTypes=True)
+        if not (b.ok and b.rest == b''):
+            if col is not None:
+                col.exclude('control arm: ber.decode of the rewritten container fails (C09 / C18)')
+            continue
+        d = lib.decode('DER', e2, sch, decodeOpenTypes=True)
+        if col is not None:
+            col.case(e2 + b'opentype', True, ['rewrite:' + kind, 'decoder:DER', 'open-type-payload', 'node-depth=%d' % min(node.depth + 1, 4)],
+                     sample={'inner_type': ir.show_type(T), 'der': e.hex()[:120], 'rewritten': e2.hex()[:120], 'rewrite': kind,
+                             'node': 'open type payload, ' + where, 'decoder': 'DER', 'guided': True})
+        if d.ok:
+            fails.append({'sub': 'der-opentype', 'kind': 'accepted:' + kind, 'sig': '', 'obs': {'rewrite': idx, 'kind': kind},
+                          'msg': 'der.decode(decodeOpenTypes=True) accepted the %s rewrite inside the open type payload at %s: %s' % (kind, where, e2.hex()[:120])})
+        elif d.status == 'leak':
+            fails.append({'sub': 'der-opentype', 'kind': 'leak:' + kind, 'sig': d.sig, 'obs': {'rewrite': idx, 'kind': kind}, 'msg': d.brief()})
+    return fails
+
+
 def replay(case):
-    return [dict(f, case=ir.to_jsonable(case), obs=ir.to_jsonable(f.get('obs'))) for f in run_case(case)]
+    fn = run_opentype if case.get('opentype') else run_case
+    return [dict(f, case=ir.to_jsonable(case), obs=ir.to_jsonable(f.get('obs'))) for f in fn(case)]
 
 
 def run_shard(desc, seed, tier, col):
@@ -112,6 +153,9 @@ def run_shard(desc, seed, tier, col):
         for f in run_case(case, col):
             c2 = dict(case, only=f['obs']['rewrite'])
             col.fail(f['sub'], f['kind'], f['msg'], c2, sig=f['sig'], obs=f.get('obs'))
+        if ir.depth(T) <= 2 and ir.tag_stack(T)[0]:
+            for f in run_opentype(case, col):
+                col.fail(f['sub'], f['kind'], f['msg'], dict(case, only=f['obs']['rewrite'], opentype=True), sig=f['sig'], obs=f.get('obs'))
 
     harness.run_given(gen.type_and_value(CFG), body, seed, desc['examples'], col)
 
